@@ -175,11 +175,13 @@ theorem C16_command_runs_only_live (n : Net) (op : Op) (y : Nat) (b a : Node)
   have F := keepFiles_frame
   cases op with
   | enableUser y' u => exact (contra (F.toPre.enableUser n y' u (fun _ => rfl))).elim
+  | addUserBypass y' u p adm => exact (contra (F.toPre.addUserBypass n y' u p adm (fun _ _ => rfl))).elim
   | localLogin y' u p =>
     refine (contra ?_).elim
     simp only [step]; rw [opLocalLogin_fst]; exact F.toPre.localLogin n y' u p (fun _ _ => rfl)
   | localLogout y' => exact (contra (F.localLogout n y')).elim
   | tick => exact (contra (F.tick n)).elim
+  | setBlock x' y' on => exact (contra (rel_setBlock F.refl n x' y' on)).elim
   | req y' c =>
     cases c with
     | file k =>
@@ -349,9 +351,11 @@ theorem C16_remote_session_only_by_valid_login (n : Net) (op : Op) (y : Nat) (b 
   have F := remShrink_frame
   cases op with
   | enableUser y' u => exact (quiet rfl).elim
+  | addUserBypass y' u p adm => exact (quiet rfl).elim
   | localLogin y' u p => exact (quiet rfl).elim
   | localLogout y' => exact (quiet rfl).elim
   | tick => exact (quiet rfl).elim
+  | setBlock x' y' on => exact (quiet rfl).elim
   | req x c =>
     cases c with
     | remoteLogin y' u p =>
@@ -464,9 +468,11 @@ theorem step_nextId_mono (n : Net) (op : Op) : n.nextId ≤ (step n op).1.nextId
   cases op with
   | req y c => exact exec_nextId_mono c n y
   | enableUser y u => rcases opEnableUser_cases n y u with h | h <;> simp [step, h]
+  | addUserBypass y u p adm => rcases opAddUserBypass_cases n y u p adm with h | ⟨_, _, _, h⟩ <;> simp [step, h]
   | localLogin y u p => simp only [step]; rw [opLocalLogin_fst]; exact localLogin_nextId n y u p
   | localLogout y => rcases opLocalLogout_cases n y with h | h <;> simp [step, h]
   | tick => simp only [step, tick_nextId]; exact Nat.le_refl _
+  | setBlock x y on => exact Nat.le_refl _
 
 def TrueRel : Nat → Node → Node → Prop := fun _ _ _ => True
 
@@ -537,9 +543,11 @@ theorem step_dead_stays_dead (n : Net) (op : Op) (y cid : Nat) (hd : Dead y cid 
     · intro n y' c hd
       exact dead_of_remShrink (F.rel_upd (F.rel_refl n) y' _ (fun a => F.refl y' a)) (Nat.le_refl _) hd
   | enableUser y' u => exact dead_of_remShrink (step_remShrink n _ rfl) (step_nextId_mono n _) hd
+  | addUserBypass y' u p adm => exact dead_of_remShrink (step_remShrink n _ rfl) (step_nextId_mono n _) hd
   | localLogin y' u p => exact dead_of_remShrink (step_remShrink n _ rfl) (step_nextId_mono n _) hd
   | localLogout y' => exact dead_of_remShrink (step_remShrink n _ rfl) (step_nextId_mono n _) hd
   | tick => exact dead_of_remShrink (step_remShrink n _ rfl) (step_nextId_mono n _) hd
+  | setBlock x' y' on => exact dead_of_remShrink (step_remShrink n _ rfl) (step_nextId_mono n _) hd
 
 /-- **C16, ended stays ended.** Session ids are fresh: once an id that has already been handed out (`cid < nextId`) is
 not (or no longer — after logoff, time-out or password change) a remote session of node `y`, it is never a remote session
@@ -625,8 +633,10 @@ theorem C16_local_session_only_by_valid_login (n : Net) (op : Op) (y : Nat) (b a
   have F := locShrink_frame
   cases op with
   | enableUser y' u => exact (contra (F.toPre.enableUser n y' u (fun _ => Or.inl rfl))).elim
+  | addUserBypass y' u p adm => exact (contra (F.toPre.addUserBypass n y' u p adm (fun _ _ => Or.inl rfl))).elim
   | localLogout y' => exact (contra (F.localLogout n y')).elim
   | tick => exact (contra (F.tick n)).elim
+  | setBlock x' y' on => exact (contra (rel_setBlock F.refl n x' y' on)).elim
   | localLogin y' u p =>
     simp only [step] at ha
     rw [opLocalLogin_fst] at ha
@@ -681,7 +691,8 @@ theorem C16_local_session_only_by_valid_login (n : Net) (op : Op) (y : Nat) (b a
 /-! ### a login succeeds exactly when it should -/
 
 /-- **C16, logins (remote), both directions.** The remote-login request of node `x` towards `y` is answered `success`
-iff `x` is ON, frames pass in both directions (NICs enabled, both terminals RUNNING, `x ≠ y`), `y` is ON with both managers
+iff `x` is ON, frames pass in both directions (NICs enabled, both terminals RUNNING, neither direction blocked on the way,
+`x ≠ y` unless the topology sends a host's frames to itself back through its gateway), `y` is ON with both managers
 RUNNING, the account exists, is enabled, the password is its current one, and fewer than `max_remote_sessions` sessions are
 open on `y`.  ("Only if" = no login without valid credentials; "if" = every such attempt on an unblocked path succeeds.) -/
 theorem C16_remote_login_ok_iff (n : Net) (x y : Nat) (u p : String) :
@@ -787,9 +798,11 @@ theorem C16_limit_step (n : Net) (op : Op) (h : WithinLimit n) : WithinLimit (st
   have F := limRel_frame
   cases op with
   | enableUser y' u => exact within_of_limRel (step_limRel n _ rfl) h
+  | addUserBypass y' u p adm => exact within_of_limRel (step_limRel n _ rfl) h
   | localLogin y' u p => exact within_of_limRel (step_limRel n _ rfl) h
   | localLogout y' => exact within_of_limRel (step_limRel n _ rfl) h
   | tick => exact within_of_limRel (step_limRel n _ rfl) h
+  | setBlock x' y' on => exact within_of_limRel (step_limRel n _ rfl) h
   | req y' c =>
     refine exec_induction (fun n m => WithinLimit n → WithinLimit m) (fun _ h => h) (fun _ _ _ h1 h2 h => h2 (h1 h)) ?_
       (fun n m hs => within_of_limRel (F.rel_shr F.shr (F.rel_refl n) hs))
@@ -1361,9 +1374,11 @@ theorem C16_fresh_ids_step (n : Net) (op : Op) (h : FreshIds n) : FreshIds (step
   have F := remShrink_frame
   cases op with
   | enableUser y' u => exact fresh_of_remShrink (step_remShrink n _ rfl) (step_nextId_mono n _) h
+  | addUserBypass y' u p adm => exact fresh_of_remShrink (step_remShrink n _ rfl) (step_nextId_mono n _) h
   | localLogin y' u p => exact fresh_of_remShrink (step_remShrink n _ rfl) (step_nextId_mono n _) h
   | localLogout y' => exact fresh_of_remShrink (step_remShrink n _ rfl) (step_nextId_mono n _) h
   | tick => exact fresh_of_remShrink (step_remShrink n _ rfl) (step_nextId_mono n _) h
+  | setBlock x' y' on => exact fresh_of_remShrink (step_remShrink n _ rfl) (step_nextId_mono n _) h
   | req y' c =>
     refine exec_induction (fun n m => FreshIds n → FreshIds m) (fun _ h => h) (fun _ _ _ h1 h2 h => h2 (h1 h)) ?_
       (fun n m hs => fresh_of_remShrink (F.rel_shr F.shr (F.rel_refl n) hs) (by rw [hs.nextId]; exact Nat.le_refl _))
@@ -1508,9 +1523,11 @@ theorem C16_fuel_suffices (n : Net) (op : Op) : (step n op).1.stuck = n.stuck :=
   cases op with
   | req y c => exact exec_not_stuck c n y
   | enableUser y u => rcases opEnableUser_cases n y u with h | h <;> simp [step, h]
+  | addUserBypass y u p adm => rcases opAddUserBypass_cases n y u p adm with h | ⟨_, _, _, h⟩ <;> simp [step, h]
   | localLogin y u p => simp only [step]; rw [opLocalLogin_fst]; exact localLogin_not_stuck n y u p
   | localLogout y => rcases opLocalLogout_cases n y with h | h <;> simp [step, h]
   | tick => exact tick_not_stuck n
+  | setBlock x y on => rfl
 
 theorem C16_fuel_suffices_run (ops : List Op) (n : Net) : (run n ops).stuck = n.stuck := by
   induction ops generalizing n with
